@@ -341,6 +341,7 @@ type c04Run struct {
 	finalLn map[int]int64
 	finalEm map[int]bool
 	hung    string
+	panicked string
 }
 
 func (r *c04Run) record(ev c04Ev) {
@@ -396,8 +397,8 @@ func (r *c04Run) yield(t *c04Thread, at string) {
 
 // c04Execute runs one schedule: prefix of forced choices, then `policy` (nil: keep the running
 // thread while it is enabled, else the lowest enabled one).
-func c04Execute(sc *c04Scenario, prefix []int, policy func(step int, enabled []int, cur int, curEnabled bool) int) *c04Run {
-	r := &c04Run{sc: sc, boxes: map[int]Mailbox{}, events: make(chan c04Yield), sent: map[int]*c04Msg{},
+func c04Execute(sc *c04Scenario, prefix []int, policy func(step int, enabled []int, cur int, curEnabled bool) int) (r *c04Run) {
+	r = &c04Run{sc: sc, boxes: map[int]Mailbox{}, events: make(chan c04Yield), sent: map[int]*c04Msg{},
 		finalLn: map[int]int64{}, finalEm: map[int]bool{}}
 	r.boxes[0] = c04NewMailbox(sc.K, sc.C, sc.P)
 	for _, op := range sc.Prefill {
@@ -414,6 +415,14 @@ func c04Execute(sc *c04Scenario, prefix []int, policy func(step int, enabled []i
 		t := &c04Thread{id: i, resume: make(chan struct{})}
 		r.threads = append(r.threads, t)
 		go func(t *c04Thread, ops [][]int64) {
+			defer func() {
+				if p := recover(); p != nil {
+					// a panic inside the mailbox code under this schedule: report it, keep the harness alive
+					r.panicked = fmt.Sprintf("thread %d panicked after %s: %v", t.id, t.at, p)
+					t.at = ""
+					r.events <- c04Yield{t: t, done: true}
+				}
+			}()
 			<-t.resume
 			for k, op := range ops {
 				if k > 0 {
@@ -508,6 +517,14 @@ func c04Execute(sc *c04Scenario, prefix []int, policy func(step int, enabled []i
 	r.cur = nil
 	verifMbHook.Store(nil)
 	// quiescence: every thread has returned from every call; drain with the single consumer
+	defer func() {
+		if p := recover(); p != nil {
+			r.panicked = fmt.Sprintf("Dequeue panicked while draining after the schedule: %v", p)
+		}
+	}()
+	if r.panicked != "" {
+		return r
+	}
 	for b, mb := range r.boxes {
 		nils := 0
 		for i := 0; i < sc.Drain && nils < 3; i++ {
@@ -883,6 +900,13 @@ func c04Explore(sc *c04Scenario, rng *verifRNG) (sum c04SchedSummary) {
 			sum.Hung = true
 			return
 		}
+		if r.panicked != "" {
+			sum.SigCounts[sc.K+":panic"]++
+			if sum.SigCounts[sc.K+":panic"] == 1 {
+				sum.Violations = append(sum.Violations, c04Viol{Sig: sc.K + ":panic", What: r.panicked, Scenario: sc.Name, Sched: sched, Hist: hs})
+			}
+			return
+		}
 		for _, v := range c04Oracle(sc, r.hist, r.paused, r.finalLn, r.finalEm, r.sent, true) {
 			sum.SigCounts[v.Sig]++
 			if sum.SigCounts[v.Sig] == 1 {
@@ -1029,12 +1053,12 @@ type c04StressOut struct {
 	Violations []c04Viol
 }
 
-func c04Stress(cfg c04StressCfg, seed uint64) c04StressOut {
+func c04Stress(cfg c04StressCfg, seed uint64) (out c04StressOut) {
 	if cfg.Procs > 0 {
 		defer runtime.GOMAXPROCS(runtime.GOMAXPROCS(cfg.Procs))
 	}
 	start := time.Now()
-	out := c04StressOut{Cfg: cfg}
+	var mu sync.Mutex
 	add := func(sig, what string) {
 		for _, v := range out.Violations {
 			if v.Sig == cfg.K+":"+sig {
@@ -1043,6 +1067,11 @@ func c04Stress(cfg c04StressCfg, seed uint64) c04StressOut {
 		}
 		out.Violations = append(out.Violations, c04Viol{Sig: cfg.K + ":" + sig, What: what, Scenario: fmt.Sprintf("stress %+v", cfg)})
 	}
+	defer func() {
+		if x := recover(); x != nil {
+			add("panic", fmt.Sprintf("Dequeue panicked under concurrent producers: %v", x))
+		}
+	}()
 	mb := c04NewMailbox(cfg.K, cfg.C, cfg.P)
 	total := cfg.Producers * cfg.PerProd
 	accepted := make([]atomic.Bool, total) // set after Enqueue returned nil
@@ -1053,6 +1082,14 @@ func c04Stress(cfg c04StressCfg, seed uint64) c04StressOut {
 		wg.Add(1)
 		go func(p int) {
 			defer wg.Done()
+			defer func() {
+				if x := recover(); x != nil {
+					mu.Lock()
+					add("panic", fmt.Sprintf("Enqueue panicked: %v", x))
+					mu.Unlock()
+					nDone.Add(1)
+				}
+			}()
 			rng := newVerifRNG(seed*977 + uint64(p))
 			sender := p
 			if cfg.SameKey {
